@@ -24,7 +24,9 @@ def gen_case(rng, nmax):
     kind = rng.choice(["changing", "anomalous", "alternating"])
     n = rng.randint(1, nmax)
     p = rng.randint(1, 3)
-    c = {"kind": kind, "n": n, "p": p, "seed": rng.randint(0, 10**6), "bad": None}
+    # seeds at the boundary of "truthiness" as well: 0 is a seed like any other; NumPy integers are accepted seeds
+    c = {"kind": kind, "n": n, "p": p, "seed": rng.choice([0, 0, 1, 2, rng.randint(0, 10**6), rng.randint(0, 10**6)]),
+         "seed_np": rng.random() < 0.3, "bad": None}
     if kind == "changing":
         k = rng.randint(0, min(4, max(0, n - 1)))
         cps = sorted(rng.sample(range(0, n), k)) if n > 0 else []
@@ -90,6 +92,8 @@ def param_lists(rng, k, p):
 
 
 def call(c, means, variances, seed):
+    if c.get("seed_np"):
+        seed = np.int64(seed)
     from skchange.datasets import generate_alternating_data, generate_anomalous_data, generate_changing_data
 
     conv = lambda v: [np.array(x, dtype=float) if isinstance(x, list) else x for x in v] if isinstance(v, list) else v  # noqa: E731
